@@ -222,4 +222,98 @@ theorem perm_hyp_group (p : V) : ∀ l l' : List V, l.Perm l' → aggReduce "gro
     | nil => exact absurd h.symm (by simp)
     | cons b bs => simp only [aggReduce]
 
+/-! ### `quantile`: the sort makes it independent of the order -/
+
+section quantile
+variable (L : LtLaws (fun v : V => isNaN v = false)) (hn : NanLaw V)
+  (htri : ∀ a b : V, isNaN a = false → isNaN b = false → lt a b = false → lt b a = false → a = b)
+  (hnan : ∀ a b : V, isNaN a = true → isNaN b = true → a = b)
+
+/-- a true comparison has no NaN operand -/
+theorem lt_true_not_nan (hn : NanLaw V) (a b : V) (h : lt a b = true) : isNaN a = false ∧ isNaN b = false := by
+  constructor
+  · cases ha : isNaN a with
+    | false => rfl
+    | true => rw [(hn a b ha).1] at h; cases h
+  · cases hb : isNaN b with
+    | false => rfl
+    | true => rw [(hn b a hb).2] at h; cases h
+
+include L hn in
+theorem ltNaNFirst_negtrans (a b c : V) (h1 : ltNaNFirst a b = false) (h2 : ltNaNFirst b c = false) :
+    ltNaNFirst a c = false := by
+  unfold ltNaNFirst at *
+  simp only [Bool.or_eq_false_iff, Bool.and_eq_false_iff, Bool.not_eq_false'] at h1 h2 ⊢
+  obtain ⟨h1n, h1l⟩ := h1
+  obtain ⟨h2n, h2l⟩ := h2
+  cases ha : isNaN a with
+  | true =>
+    -- a NaN: b NaN (h1n), so c NaN (h2n)
+    have hb : isNaN b = true := by rcases h1n with h | h <;> simp_all
+    have hc : isNaN c = true := by rcases h2n with h | h <;> simp_all
+    exact ⟨Or.inr hc, (hn a c ha).1⟩
+  | false =>
+    refine ⟨Or.inl rfl, ?_⟩
+    cases hc : isNaN c with
+    | true => exact (hn c a hc).2
+    | false =>
+      cases hb : isNaN b with
+      | true => rcases h2n with h | h <;> simp_all
+      | false => exact L.negtrans a b c ha hb hc h1l h2l
+
+include L hn in
+theorem ltNaNFirst_asymm (a b : V) (h : ltNaNFirst a b = true) : ltNaNFirst b a = false := by
+  unfold ltNaNFirst at *
+  simp only [Bool.or_eq_true, Bool.and_eq_true, Bool.not_eq_true'] at h
+  simp only [Bool.or_eq_false_iff, Bool.and_eq_false_iff, Bool.not_eq_false']
+  rcases h with ⟨ha, hb⟩ | hl
+  · exact ⟨Or.inl hb, (hn a b ha).2⟩
+  · obtain ⟨ha, hb⟩ := lt_true_not_nan hn a b hl
+    exact ⟨Or.inl hb, L.asymm a b ha hb hl⟩
+
+include L hn htri hnan in
+/-- the sort of `quantile` gives the same list for every order of the input -/
+theorem sortNaNFirst_perm (l l' : List V) (h : l.Perm l') : sortNaNFirst l = sortNaNFirst l' := by
+  unfold sortNaNFirst
+  have trans : ∀ a b c : V, (!ltNaNFirst b a) = true → (!ltNaNFirst c b) = true → (!ltNaNFirst c a) = true := by
+    intro a b c h1 h2
+    simp only [Bool.not_eq_true'] at h1 h2 ⊢
+    exact ltNaNFirst_negtrans L hn c b a h2 h1
+  have total : ∀ a b : V, (!ltNaNFirst b a || !ltNaNFirst a b) = true := by
+    intro a b
+    cases hba : ltNaNFirst b a with
+    | false => rfl
+    | true => simp [ltNaNFirst_asymm L hn b a hba]
+  apply List.Perm.eq_of_pairwise (le := fun a b => (!ltNaNFirst b a) = true)
+  · intro a b _ _ h1 h2
+    simp only [Bool.not_eq_true'] at h1 h2
+    unfold ltNaNFirst at h1 h2
+    simp only [Bool.or_eq_false_iff, Bool.and_eq_false_iff, Bool.not_eq_false'] at h1 h2
+    cases ha : isNaN a with
+    | true =>
+      cases hb : isNaN b with
+      | true => exact hnan a b ha hb
+      | false => rcases h2.1 with h | h <;> simp_all
+    | false =>
+      cases hb : isNaN b with
+      | true => rcases h1.1 with h | h <;> simp_all
+      | false => exact htri a b ha hb h2.2 h1.2
+  · exact List.pairwise_mergeSort (le := fun a b => !ltNaNFirst b a) trans total l
+  · exact List.pairwise_mergeSort (le := fun a b => !ltNaNFirst b a) trans total l'
+  · exact ((List.mergeSort_perm l _).trans h).trans (List.mergeSort_perm l' _).symm
+
+include L hn htri hnan in
+theorem perm_hyp_quantile (p : V) : ∀ l l' : List V, l.Perm l' → aggReduce "quantile" p l = aggReduce "quantile" p l' := by
+  intro l l' h
+  cases l with
+  | nil => rw [List.nil_perm.mp h]
+  | cons a as =>
+    cases l' with
+    | nil => exact absurd h.symm (by simp)
+    | cons b bs =>
+      simp only [aggReduce, quantileK, List.isEmpty_cons, Bool.false_or]
+      rw [sortNaNFirst_perm L hn htri hnan (a :: as) (b :: bs) h]
+
+end quantile
+
 end PromqlVerif
